@@ -169,7 +169,9 @@ pub fn generate_live(prop: &str, seed: u64, tier: &str, out: &mut dyn std::io::W
             let mut r = Rng::for_case(seed, 606, idx);
             let adj = (k + 4096 - x) % 4096;
             let nblock = *r.pick(&[22usize, 24, 30]);
-            let t = match Target::spawn(&["-t".to_string(), nblock.to_string(), "-o".to_string(), adj.to_string()]) {
+            // (a pattern region: every blocked thread keeps a pointer into it in the word just below its stack
+            // pointer, and nowhere else)
+            let t = match Target::spawn(&["-t".to_string(), nblock.to_string(), "-o".to_string(), adj.to_string(), "-r".to_string(), "8192:r".to_string()]) {
                 Ok(t) => t,
                 Err(_) => continue,
             };
@@ -191,10 +193,12 @@ pub fn generate_live(prop: &str, seed: u64, tier: &str, out: &mut dyn std::io::W
                 // C20: principal mapping = the code the threads block in (every IP is inside) or the
                 // shared page (only referenced through pointers that some threads hold on their stack)
                 let rip = t.read_u64(bt.regs_addr + 88);
-                cfg.principal = Some(if variant % 2 == 0 { rip } else { t.desc["shared"].as_u64().unwrap() });
-                if r.chance(1, 3) {
+                let region = t.desc["regions"][0]["addr"].as_u64().unwrap();
+                cfg.principal = Some(match r.below(3) { 0 => rip, 1 => t.desc["shared"].as_u64().unwrap(), _ => region + 64 });
+                if r.chance(2, 3) {
                     let mut c = CrashSpec { tid: bt.tid, signo: 11, code: 1, addr: 0, fp_seed: r.next(), ..Default::default() };
-                    c.gregs[libc::REG_RIP as usize] = rip as i64;
+                    // the instruction pointer: in the code, or nowhere (then only the stack can reference the mapping)
+                    c.gregs[libc::REG_RIP as usize] = *r.pick(&[rip, 0x10, 0x10]) as i64;
                     c.gregs[libc::REG_RSP as usize] = t.read_u64(bt.regs_addr + 80) as i64;
                     cfg.crash = Some(c);
                 }
